@@ -15,6 +15,7 @@ import (
 	"io"
 	"os"
 	"path/filepath"
+	"runtime"
 	"sort"
 	"strings"
 	"sync"
@@ -198,6 +199,93 @@ func emfileOn() {
 
 func emfileOff() { syscall.Setrlimit(syscall.RLIMIT_NOFILE, &savedRlimit) }
 
+// A failing fsync(2): a seccomp filter that makes every fsync of the calling thread return EIO.
+// A filter cannot be removed, so the call that is to see the failure runs on a fresh OS thread that
+// is destroyed with it (a goroutine that ends while locked to its thread takes the thread with
+// it; the Go runtime never clones a new thread from a locked one), and the filter is installed
+// from the hook sink -- which runs on that same thread, inside the store -- right before the os
+// call that is to fail, so that the earlier fsyncs of the same call (the data file's) succeed.
+type bpfInsn struct {
+	Code uint16
+	Jt   uint8
+	Jf   uint8
+	K    uint32
+}
+
+type bpfProg struct {
+	Len    uint16
+	_      [6]byte
+	Filter *bpfInsn
+}
+
+func installFsyncFilter() error {
+	const (
+		prSetNoNewPrivs = 38
+		prSetSeccomp    = 22
+		modeFilter      = 2
+		retAllow        = 0x7fff0000
+		retErrno        = 0x00050000
+	)
+	prog := []bpfInsn{
+		{0x20, 0, 0, 0},                              // A := syscall number
+		{0x15, 0, 1, uint32(syscall.SYS_FSYNC)},      // not fsync: allow
+		{0x06, 0, 0, retErrno | uint32(syscall.EIO)}, // fsync: EIO
+		{0x06, 0, 0, retAllow},
+	}
+	fp := bpfProg{Len: uint16(len(prog)), Filter: &prog[0]}
+	if _, _, e := syscall.RawSyscall6(syscall.SYS_PRCTL, prSetNoNewPrivs, 1, 0, 0, 0, 0); e != 0 {
+		return e
+	}
+	if _, _, e := syscall.RawSyscall6(syscall.SYS_PRCTL, prSetSeccomp, modeFilter, uintptr(unsafe.Pointer(&fp)), 0, 0, 0); e != 0 {
+		return e
+	}
+	runtime.KeepAlive(prog)
+	return nil
+}
+
+// onDoomedThread runs f on an OS thread of its own that ends with it. probeFd is fsynced on that
+// thread after f: true = a failing-fsync filter was installed during f and is in force.
+func onDoomedThread(probeFd int, f func()) (filtered bool) {
+	done := make(chan bool)
+	go func() {
+		runtime.LockOSThread() // never unlocked: the thread ends with this goroutine
+		f()
+		done <- syscall.Fsync(probeFd) == syscall.EIO
+	}()
+	return <-done
+}
+
+var fsyncFailProbe struct {
+	once sync.Once
+	ok   bool
+}
+
+// fsyncFailSupported: the filter can be installed here, bites on the thread it is installed on
+// (from the moment it is installed) and on no other.
+func fsyncFailSupported(scratch string) bool {
+	fsyncFailProbe.once.Do(func() {
+		if runtime.GOOS != "linux" {
+			return
+		}
+		dir := filepath.Join(scratch, "fsyncprobe")
+		os.MkdirAll(dir, 0o755)
+		defer os.RemoveAll(dir)
+		d, err := os.Open(dir)
+		if err != nil {
+			return
+		}
+		defer d.Close()
+		var before, install, after error
+		in := onDoomedThread(int(d.Fd()), func() {
+			before = d.Sync()
+			install = installFsyncFilter()
+			after = d.Sync()
+		})
+		fsyncFailProbe.ok = in && before == nil && install == nil && after != nil && d.Sync() == nil
+	})
+	return fsyncFailProbe.ok
+}
+
 // ---------------------------------------------------------------- the rig
 
 type statInfo struct {
@@ -206,8 +294,9 @@ type statInfo struct {
 }
 
 type fsFault struct {
-	kind string // hook kind to fail: fs.reserve fs.tmpcreate fs.rename fs.dirsync fs.remove
-	nth  int    // which occurrence of that kind within the call (0-based)
+	kind  string // hook kind to fail: fs.reserve fs.tmpcreate fs.rename fs.dirsync fs.remove
+	nth   int    // which occurrence of that kind within the call (0-based)
+	fsync bool   // fs.dirsync: the directory opens, its fsync(2) fails (the call runs under onDoomedThread)
 }
 
 type fsWriter struct {
@@ -240,6 +329,17 @@ type fsRig struct {
 
 	boundary func(r *fsRig, kind string, phase int64, path string) // every hook event, before it is processed
 
+	// strict: the rig is the only user of the store package while a call runs; a store event that
+	// names a path outside the root directory is recorded (the store reached outside its root)
+	strict  bool
+	inCall  bool
+	foreign []string
+
+	fsyncOK     bool     // a failing fsync(2) can be injected on this platform
+	doomed      bool     // the current call runs on a thread that ends with it
+	fsyncHit    bool     // this call reached its directory fsync with the failing fsync in force
+	misreported []string // calls whose hook events reported an os call as successful that was made to fail
+
 	writers []*fsWriter
 	nextID  int
 }
@@ -260,6 +360,7 @@ func newFsRig(dir string, draws []string) *fsRig {
 	must(err)
 	r.dirfd = d
 	r.immOK = immutableSupported(filepath.Dir(dir))
+	r.fsyncOK = fsyncFailSupported(filepath.Dir(dir))
 	bs.VerifSetSink(r.sink)
 	r.active = true
 	return r
@@ -309,6 +410,18 @@ func (r *fsRig) maybeArm(kind string) {
 	if r.fault == nil || r.fault.kind != kind || r.fault.nth != n {
 		return
 	}
+	if kind == "fs.dirsync" && r.fault.fsync {
+		// the sink runs on the thread that is about to open and fsync the directory; that thread
+		// is the doomed one (closeWriter)
+		if !r.doomed {
+			panic("a failing fsync is only armed on a thread that ends with the call")
+		}
+		if err := installFsyncFilter(); err != nil {
+			panic("failing-fsync filter: " + err.Error())
+		}
+		r.fsyncHit = true
+		return
+	}
 	switch kind {
 	case "fs.reserve", "fs.tmpcreate", "fs.dirsync":
 		emfileOn()
@@ -332,7 +445,13 @@ func (r *fsRig) disarm() {
 
 // sink runs synchronously on the goroutine inside the store, under the hook mutex.
 func (r *fsRig) sink(e bs.VerifEvent) {
-	if !r.active || !strings.HasPrefix(e.Kind, "fs.") || (e.S != r.dir && filepath.Dir(e.S) != r.dir) {
+	if !r.active || !strings.HasPrefix(e.Kind, "fs.") {
+		return
+	}
+	if e.S != r.dir && filepath.Dir(e.S) != r.dir {
+		if r.strict && r.inCall && e.S != "" && e.A == 0 {
+			r.foreign = append(r.foreign, e.Kind+" "+e.S)
+		}
 		return
 	}
 	if e.A != 0 {
@@ -447,6 +566,13 @@ func (r *fsRig) sink(e bs.VerifEvent) {
 		case 0:
 			r.maybeArm(e.Kind)
 		case 1:
+			if r.fsyncHit {
+				// what happened to the directory is what the os did, not what the store reports:
+				// fsync(2) failed, the entry changes are not durable
+				r.misreported = append(r.misreported, fmt.Sprintf("writer %d: fsync(2) on the directory failed with EIO, the store went on as if it had succeeded", a))
+				add(fsLabel{K: "DirSync", A: a, Ok: false})
+				break
+			}
 			add(fsLabel{K: "DirSync", A: a, Ok: true})
 		case 2:
 			add(fsLabel{K: "DirSync", A: a, Ok: false})
@@ -460,10 +586,13 @@ func (r *fsRig) begin(writer int, payload []byte, fault *fsFault) {
 	r.labels = nil
 	r.seen = map[string]int{}
 	r.faultable, r.faultIdx = 0, -1
+	r.inCall = true
+	r.fsyncHit = false
 }
 
 func (r *fsRig) end() []fsLabel {
 	r.disarm()
+	r.inCall = false
 	ls := r.labels
 	r.labels, r.fault, r.curBytes = nil, nil, nil
 	return ls
@@ -516,7 +645,9 @@ func (r *fsRig) write(fw *fsWriter, p []byte) (int, fsCallResult) {
 	return n, fsCallResult{labels: ls, err: err, faultIdx: -1}
 }
 
-// closeWriter: fault index 0 = sync (early close of the handle), 2 = rename, 3 = dirsync; -1 none.
+// closeWriter: fault index 0 = sync (early close of the handle), 2 = rename, 3 = dirsync (the open
+// of the directory fails), 4 = dirsync (the directory opens, fsync(2) on it fails); -1 none.
+// The model has one failure point for the directory fsync: 4 is reported as 3.
 func (r *fsRig) closeWriter(fw *fsWriter, fault int) fsCallResult {
 	var f *fsFault
 	switch fault {
@@ -528,9 +659,22 @@ func (r *fsRig) closeWriter(fw *fsWriter, fault int) fsCallResult {
 		f = &fsFault{kind: "fs.rename"}
 	case 3:
 		f = &fsFault{kind: "fs.dirsync"}
+	case 4:
+		f = &fsFault{kind: "fs.dirsync", fsync: true}
 	}
 	r.begin(fw.id, nil, f)
-	err := fw.w.Close()
+	var err error
+	if fault == 4 {
+		r.doomed = true
+		filtered := onDoomedThread(int(r.dirfd.Fd()), func() { err = fw.w.Close() })
+		r.doomed = false
+		if filtered != r.fsyncHit {
+			panic("the failing fsync was not in force when the call reached its directory fsync")
+		}
+		fault = 3
+	} else {
+		err = fw.w.Close()
+	}
 	ls := r.end()
 	if err == nil {
 		fw.done = true
@@ -573,6 +717,15 @@ func (r *fsRig) update(ctx context.Context, bases []string) fsCallResult {
 	err := r.store.Update(ctx, nil, dels)
 	ls := r.end()
 	return fsCallResult{labels: ls, err: err, faultIdx: -1}
+}
+
+// famFRoot picks the store's root directory below scratch. The store derives every path it touches
+// from the root and the pointer by string surgery on ".dat"/".tmp", so the root itself comes in
+// layouts whose own components contain those extensions (plain about half of the time).
+func famFRoot(c *Ctx, scratch, stem string, i int) (string, string) {
+	layouts := []string{"%s%d", "%s%d", "%s%d", "%s%d.dat", "%s%d.tmp", "%s%d.data", "vol.dat.d/%s%d", "a.tmp.b.dat/%s%d.dat", ".dat%s%d", "%s%d.dat.tmp"}
+	l := layouts[c.intn(len(layouts))]
+	return filepath.Join(scratch, fmt.Sprintf(l, stem, i)), fmt.Sprintf(l, stem, 0)
 }
 
 // ---------------------------------------------------------------- observations
